@@ -54,13 +54,13 @@ def readonly_commands(spec, p):
         ('get bin', ['get', '-d', p, '-f', n2, '-t', 'bin'], None), ('get any', ['get', '-d', p, '-f', n1, '-t', 'any'], None),
         ('get block', ['get', '-d', p, '-f', '2', '-t', 'block'], None), ('get sector', ['get', '-d', p, '-f', '0,0,1', '-t', 'sec'], None),
         ('get meta', ['get', '-d', p, '-t', 'meta'], None), ('get track', ['get', '-d', p, '-f', '0,0', '-t', 'track'], None),
-        ('mget', ['mget', '-d', p], (n1 + '\n' + n2 + '\n').encode()),
+        ('mget', ['mget', '-d', p], json.dumps([n1, n2]).encode()),
     ]
 
 def mput_cases(spec, p):
     """a batch whose n-th element fails: nothing of the batch may reach the file"""
     o, k, ty, w, v, ext, n1, n2, dirs = spec
-    rc, out, err = cli(['mget', '-d', p], stdin=(n1 + '\n' + n2 + '\n').encode())
+    rc, out, err = cli(['mget', '-d', p], stdin=json.dumps([n1, n2]).encode())
     if rc != 0:
         return []
     try:
